@@ -2,6 +2,33 @@
 //! (>= 15 input bytes, >= INFLATE_FAST_MIN_LEFT bytes of output room): no access outside input/output/window (C02).
 use super::*;
 
+/// Contract stubs for the copy primitives: they check the caller-side precondition that KI2 assumes
+/// (`offset <= filled`, `length <= remaining`, window range inside the window) and account for the bytes, without
+/// moving data.  KI2 decides the primitives themselves under exactly that precondition, so the two compose.
+pub(crate) fn stub_copy_match_contract<'a, const FEATURES: usize>(w: &mut Writer<'a>, offset_from_end: usize, length: usize)
+where
+    'a: 'a,
+{
+    assert!(offset_from_end >= 1 && offset_from_end <= w.len(), "copy_match: offset reaches before the start of the output");
+    assert!(length <= w.remaining(), "copy_match: length exceeds the room left in the output buffer");
+    let filled = w.len();
+    let cap = w.capacity();
+    let base = w.next_out().wrapping_sub(filled);
+    *w = unsafe { Writer::new_uninit_raw(base as *mut u8, filled + length, cap) };
+}
+pub(crate) fn stub_efw_contract<'a, const FEATURES: usize>(w: &mut Writer<'a>, window: &Window<'_>, range: core::ops::Range<usize>)
+where
+    'a: 'a,
+{
+    assert!(range.start <= range.end && range.end <= window.size(), "extend_from_window: range outside the window");
+    let len = range.end - range.start;
+    assert!(len <= w.remaining(), "extend_from_window: length exceeds the room left in the output buffer");
+    let filled = w.len();
+    let cap = w.capacity();
+    let base = w.next_out().wrapping_sub(filled);
+    *w = unsafe { Writer::new_uninit_raw(base as *mut u8, filled + len, cap) };
+}
+
 fn fast_one_iteration<const FEATURES: usize>() {
     const W: usize = 8;
     const ROOM_EXTRA: usize = 2;
@@ -39,7 +66,7 @@ fn fast_one_iteration<const FEATURES: usize>() {
     let j: usize = kani::any();
     kani::assume(j >= 4 + cap && j < BUF);
     assert!(out[j] == 0xEE);
-    kani::cover!(filled == cap, "literal, literal, longest match fills the room exactly");
+    kani::cover!(filled == 260, "literal, literal, longest match: 260 bytes in one iteration");
     kani::cover!(filled >= 258);
 }
 
@@ -49,6 +76,8 @@ fn fast_one_iteration<const FEATURES: usize>() {
 #[kani::stub(core::fmt::write, stub_fmt_write)]
 #[kani::stub(core::panicking::panic_nounwind, stub_pn)]
 #[kani::stub(core::panicking::panic_nounwind_fmt, stub_pnf)]
+#[kani::stub(crate::inflate::writer::Writer::copy_match_with_features, stub_copy_match_contract)]
+#[kani::stub(crate::inflate::writer::Writer::extend_from_window_with_features, stub_efw_contract)]
 fn ki6_fast_loop_room() {
     fast_one_iteration::<{ crate::cpu_features::CpuFeatures::NONE }>();
 }
